@@ -54,6 +54,51 @@ def _check(stream, parts, after_reset, drift=False):
   return fails
 
 
+def _check_accuracy(rng, n, parts, after_reset):
+  """Accuracy (multi-class and thresholded) and a MultiMetric holding one: the fraction of correct examples of
+  the whole stream, however it is split into update calls"""
+  from flax import nnx
+  import jax.numpy as jnp
+  fails = []
+  logits = rng.randn(n, 3).astype(np.float32)
+  # accuracy drifts along the stream, so that batches of unequal size have unequal accuracy
+  labels = np.where(rng.rand(n) < np.linspace(0.95, 0.2, n), logits.argmax(-1), (logits.argmax(-1) + 1) % 3).astype(np.int32)
+  blogits = rng.randn(n).astype(np.float32)
+  blabels = np.where(rng.rand(n) < np.linspace(0.9, 0.3, n), blogits >= 0.25, blogits < 0.25).astype(np.int32)
+  want = dict(multi=float(np.mean(logits.argmax(-1) == labels)), binary=float(np.mean((blogits >= 0.25) == (blabels > 0))))
+  for kind in ('multi', 'binary', 'multimetric'):
+    m = {'multi': lambda: nnx.metrics.Accuracy(), 'binary': lambda: nnx.metrics.Accuracy(threshold=0.25),
+         'multimetric': lambda: nnx.MultiMetric(acc=nnx.metrics.Accuracy(), loss=nnx.metrics.Average('loss'))}[kind]()
+    if after_reset:
+      if kind == 'binary':
+        m.update(logits=jnp.asarray(blogits[:2]), labels=jnp.asarray(1 - blabels[:2]))
+      elif kind == 'multi':
+        m.update(logits=jnp.asarray(logits[:2]), labels=jnp.asarray((labels[:2] + 1) % 3))
+      else:
+        m.update(logits=jnp.asarray(logits[:2]), labels=jnp.asarray((labels[:2] + 1) % 3), loss=jnp.asarray([9.0, 9.0]))
+      m.reset()
+    off = 0
+    for p in parts:
+      sl = slice(off, off + p)
+      if kind == 'binary':
+        m.update(logits=jnp.asarray(blogits[sl]), labels=jnp.asarray(blabels[sl]))
+      elif kind == 'multi':
+        m.update(logits=jnp.asarray(logits[sl]), labels=jnp.asarray(labels[sl]))
+      else:
+        m.update(logits=jnp.asarray(logits[sl]), labels=jnp.asarray(labels[sl]), loss=jnp.asarray(blogits[sl]))
+      off += p
+    out = m.compute()
+    got = float(out['acc']) if kind == 'multimetric' else float(out)
+    ref = want['binary'] if kind == 'binary' else want['multi']
+    if not np.isfinite(got) or abs(got - ref) > 1e-4:
+      fails.append(dict(inputs=dict(metric=f'Accuracy[{kind}]', stream_len=n, partition=parts, after_reset=after_reset),
+                        observed=f'accuracy = {got!r}, fraction of correct examples over the whole stream = {ref!r}', violated='batching-independence'))
+    if kind == 'multimetric' and abs(float(out['loss']) - float(np.mean(blogits.astype(np.float64)))) > 2e-3:
+      fails.append(dict(inputs=dict(metric='MultiMetric.loss', stream_len=n, partition=parts, after_reset=after_reset),
+                        observed='the Average inside the MultiMetric differs from the mean of the whole stream', violated='batching-independence'))
+  return fails
+
+
 def _stream(rng, n, drift):
   # with drift the batch means differ from the running mean (the between-batch term matters)
   x = rng.randn(n) * 1.8 + 0.7
@@ -84,11 +129,25 @@ def run(tier, seed):
         break
     if fails:
       break
-  return dict(name=NAME, cases=cases, distinct=len(distinct), bound='streams of 7..140000 float32 values x 5-8 partitions x fresh/after-reset',
+  if not fails:
+    for n in (12, 64):
+      for parts in _partitions(n, seed) + [[5, 5, 2][:3] if n == 12 else [30, 30, 4]]:
+        for after_reset in (False, True):
+          cases += 1
+          fails += _check_accuracy(np.random.RandomState(77 + seed), n, parts, after_reset)
+          if fails:
+            break
+        if fails:
+          break
+      if fails:
+        break
+  return dict(name=NAME, cases=cases, distinct=len(distinct), bound='streams of 7..140000 float32 values x 5-8 partitions x fresh/after-reset; Accuracy (multi-class, thresholded, inside MultiMetric) on streams of 12 / 64 examples x 9 partitions (ragged) x fresh/after-reset',
               failures=fails[:3], error=None)
 
 
 def replay(inputs):
+  if str(inputs.get('metric', '')).startswith(('Accuracy', 'MultiMetric.loss')):
+    return not _check_accuracy(np.random.RandomState(77), inputs['stream_len'], inputs['partition'], inputs['after_reset'])
   rng = np.random.RandomState(1234)
   n = inputs['stream_len']
   stream = _stream(rng, n, inputs.get('drift', False))
